@@ -3,6 +3,7 @@
 package gen
 
 import (
+	"os"
 	"fmt"
 	"math"
 	"sort"
@@ -29,6 +30,9 @@ type Profile struct {
 	ArrayBias int      // 0..100: extra chance that a container is an array
 	ScalarArr bool     // arrays hold scalars only
 	Big       int      // 0..100: chance (per document) of one very long string or array somewhere
+	// RespellAll: copies of a keyed member may spell every nested array in
+	// another member order, not only the arrays inside key values.
+	RespellAll bool
 }
 
 func (p Profile) norm() Profile {
@@ -56,6 +60,7 @@ var PayloadStrings = []string{
 	"\x00", "\x1f", "\n", "\r\n", "\t", "\"", "\\", "\\\"", "<>&", "</script>", "\u2028", "\u2029",
 	"\U0001F600", "\u00e9", "\u65e5\u672c", "\u007f", "\u0080", "\ufeff", " lead", "trail ", "- x", "a: b", "#c", "@", "[", "]", "^", "+", "-", " ",
 	"null", "[]", "{}", "0", "1e21", "~", "yes", "\\u0026", "p\\u003eq", "\\u003c", "C:\\U0001F600", "100%", "%d items", "%s", "%!v(MISSING)", "%%", "a%b",
+	"//", "a // b", "/* c */", "a /* b */ c", "http://h/p?q=1//", "C:\\dir\\", "*/", "/*",
 	"[m]", "[10m]", "a[1;2m", "[31mFAILED[0m", "\x1b[31mred\x1b[0m", "[0m", "\x1b[",
 }
 
@@ -68,6 +73,17 @@ var LongStrings = []string{
 }
 
 var floatPool = []float64{5e-324, 1e-310, 2.5e-320, -5e-324, 0.3, 1234567890123456, 1234567890123457, 9007199254740990, 9007199254740991, 1.0000000000000002, 0.5, -0.5, 1e21, 1e-7, math.Copysign(0, -1), 1.5, 2.25, 9007199254740993, 1e300, -1, 0.1, 0.30000000000000004, 100}
+
+// Scale is 1 in the quick tier and 4 in the thorough tier: the generators of
+// long arrays, wide objects, long strings and deep nesting multiply their
+// sizes by it, so that a behaviour that depends on a size is exercised on
+// both sides of more possible limits.
+func Scale() int {
+	if os.Getenv("VERIF_TIER") == "thorough" {
+		return 4
+	}
+	return 1
+}
 
 // Int draws an integer uniformly from [lo, hi]. rapid's own integer
 // generators favour small magnitudes, which would skew every weighted
@@ -258,7 +274,7 @@ func BigValue(t *rapid.T) V {
 			return strings.Repeat("m", 1200000) + fmt.Sprint(Int(t, "bigTag", 0, 9))
 		}
 		// more than 2^20 LCS cells against a slightly edited copy; a run that can grow
-		n := Int(t, "hugeLen", 1030, 1100)
+		n := Int(t, "hugeLen", 1030, 1100*Scale())
 		out := make([]V, n)
 		for i := range out {
 			out[i] = float64(i % 50)
@@ -274,7 +290,7 @@ func BigValue(t *rapid.T) V {
 	case 1:
 		return strings.Repeat("long line ", 7000) + fmt.Sprint(Int(t, "bigTag", 0, 9))
 	case 2:
-		n := Int(t, "bigLen", 65, 200)
+		n := Int(t, "bigLen", 65, 200*Scale())
 		mod := Int(t, "bigMod", 3, 90)
 		out := make([]V, n)
 		for i := range out {
@@ -397,6 +413,9 @@ func editAt(t *rapid.T, v V, p Profile, depth int) V {
 		return editObject(t, x, p, depth)
 	default:
 		// scalar: replace, sometimes by a container (type change)
+		if f, ok := v.(float64); ok && f != 0 && chance(t, "negate", 8) {
+			return -f
+		}
 		if chance(t, "near", 15) {
 			if nv, ok := NearScalar(t, v); ok {
 				return nv
@@ -710,6 +729,9 @@ func keyValue(t *rapid.T, p Profile) V {
 		}
 		return "n"
 	case r < 96:
+		if Chance(t, "kvArr2", 50) {
+			return []V{float64(Int(t, "kvArr", 0, 2)), Pick(t, "kvArrB", []V{"x", 3.0})}
+		}
 		return []V{float64(Int(t, "kvArr", 0, 2))}
 	default:
 		return map[string]V{"n": float64(Int(t, "kvObj", 0, 2))}
@@ -814,7 +836,7 @@ func DeepPair(t *rapid.T, a, b V, p Profile) (V, V) {
 	}
 	k := Int(t, "deepLevels", 1, 6)
 	if Chance(t, "veryDeep", 6) {
-		k = Int(t, "veryDeepLevels", 28, 45)
+		k = Int(t, "veryDeepLevels", 28, 45*Scale())
 	}
 	for i := 0; i < k; i++ {
 		key := Pick(t, "deepKey", plainKeys)
@@ -1055,4 +1077,52 @@ func RepeatedBlocks(t *rapid.T, p Profile) (V, V) {
 		return map[string]V{"top": a}, map[string]V{"top": b}
 	}
 	return a, b
+}
+
+// BracketTwins draws two nested lists with the same scalars in the same
+// order that differ only in where a nested list opens or closes.
+func BracketTwins(t *rapid.T) (V, V) {
+	x, y, z := Scalar(t, Profile{NullFree: true}), Pick(t, "btY", []V{2.0, "b", true}), Pick(t, "btZ", []V{3.0, "c"})
+	pairs := [][2]V{
+		{[]V{[]V{x, y}, z}, []V{[]V{x}, y, z}},
+		{[]V{[]V{}, x}, []V{[]V{x}}},
+		{[]V{[]V{x}, []V{y}}, []V{[]V{x, []V{y}}}},
+		{[]V{[]V{x}, []V{y}, z}, []V{[]V{x}, []V{y, z}}},
+		{[]V{x, []V{y, z}}, []V{x, []V{y}, z}},
+		{[]V{[]V{[]V{x}, y}}, []V{[]V{[]V{x, y}}}},
+		{[]V{[]V{x, y}}, []V{[]V{x}, []V{y}}},
+		{[]V{[]V{}, []V{}}, []V{[]V{[]V{}}}},
+	}
+	pr := Pick(t, "btPair", pairs)
+	a, b := val.Clone(pr[0]), val.Clone(pr[1])
+	if Chance(t, "btSwap", 50) {
+		a, b = b, a
+	}
+	return a, b
+}
+
+// RespellKeyValues returns v with the arrays inside the key values of keyed
+// members written in another member order (the same value under the set
+// reading that SetKeys implies).
+func RespellKeyValues(t *rapid.T, v V, keys []string) V {
+	switch x := v.(type) {
+	case []V:
+		out := make([]V, len(x))
+		for i, e := range x {
+			out[i] = RespellKeyValues(t, e, keys)
+		}
+		return out
+	case map[string]V:
+		out := map[string]V{}
+		for _, k := range val.Keys(x) {
+			out[k] = RespellKeyValues(t, x[k], keys)
+		}
+		for _, k := range keys {
+			if kv, ok := out[k]; ok && Chance(t, "respellKey", 60) {
+				out[k] = Permute(t, kv, 100)
+			}
+		}
+		return out
+	}
+	return v
 }
